@@ -15,7 +15,7 @@ VERDICT = "c07_verdict"
 EXPLAIN = "c07_explain"
 CASES_PER_FILE = 120
 CASE_FILE_BYTES = 140000
-TIERS = {"quick": {"n": 1800}, "thorough": {"n": 30000, "exhaustive": True}}
+TIERS = {"quick": {"n": 1800}, "thorough": {"n": 15000, "exhaustive": True}}
 RULE = ("(base, ref1, ref2): absolute base URL with authority (optional userinfo/port/query/fragment, path of 0-6 "
         "segments incl. '.', '..', '' and trailing slash) x references that are path-relative / path-absolute "
         "(0-7 segments over {., .., '', a, b, c;x, d:e, ..., .a, b., x=1, @, e-acute}), query-only, fragment-only, "
